@@ -8,6 +8,7 @@ usage: python -m harness.dsgen_child <jobs.json> <out.ndjson>"""
 import glob
 import json
 import os
+import signal
 import sys
 import time
 import warnings
@@ -25,6 +26,15 @@ _SLEEP = [0]
 _ORIG_INIT = md._maze_gen_init_worker
 _ORIG_HELPER = md._generate_maze_helper
 _MAIN_PID = os.getpid()
+CALL_TIMEOUT_S = int(os.environ.get("VERIF_CALL_TIMEOUT", "240"))
+
+
+class _CallTimeout(BaseException):
+    pass
+
+
+def _on_alarm(signum, frame):
+    raise _CallTimeout()
 
 
 def _fp(cfg):
@@ -110,11 +120,23 @@ def run_history(h, evroot):
             kw = {}
             if call["mode"] == "pool":
                 kw = dict(gen_parallel=True, pool_kwargs=dict(processes=call["W"]))
-            ds = MazeDataset.generate(cfg, verbose=False, **kw)
+            # watchdog: a generate call that does not come back (observed once in ~1800 pool histories on a heavily loaded
+            # machine) is recorded as "timeout" and reported as a machinery-level divergence, never as a verdict
+            signal.signal(signal.SIGALRM, _on_alarm)
+            signal.alarm(CALL_TIMEOUT_S)
+            try:
+                ds = MazeDataset.generate(cfg, verbose=False, **kw)
+            finally:
+                signal.alarm(0)
             rec["res"] = "ok"
             rec["n_got"] = len(ds)
             rec["items"] = [item_raw(m) for m in ds.mazes]
             rec["out_cfg_name"] = str(ds.cfg.name)
+        except _CallTimeout:
+            rec["res"] = "timeout"
+            rec["msg"] = f"generate did not return within {CALL_TIMEOUT_S}s"
+            rec["n_got"] = 0
+            rec["items"] = []
         except BaseException as e:  # noqa: BLE001 - the code under test may raise anything
             if isinstance(e, (KeyboardInterrupt, SystemExit)):
                 raise
